@@ -526,3 +526,113 @@ def perturb_static(rng, st, huge=False):
         st["elik"][:, 1] *= float(rng.choice([1e-6, 1e6]))
         what.append("span-scale")
     return st, what
+
+
+# ----------------------------------------------------------------------------- scalar kernels (C20 / C05)
+
+def run_ops(L, ops):
+    """ops: list of (op, [floats]); returns list of reply token lists (after the id)."""
+    text = "".join(f"case k{i}\nop {op}\nargs " + " ".join(f2h(x) for x in args) + "\nend\n"
+                   for i, (op, args) in enumerate(ops))
+    L.p.stdin.write(text)
+    L.p.stdin.flush()
+    out = []
+    for i in range(len(ops)):
+        line = L.p.stdout.readline()
+        if not line:
+            raise common.LeanError("EP driver died: " + L.p.stderr.read()[-1000:])
+        w = line.split()
+        if w[0] != f"k{i}":
+            raise common.LeanError(f"driver out of step: {line[:100]}")
+        out.append(w[1:])
+    return out
+
+
+def real_damp(x, y, s):
+    import tsdate.variational as V
+    try:
+        return float(V._damp(np.array(x, dtype=float), np.array(y, dtype=float), float(s))), True
+    except AssertionError:
+        return None, False
+
+
+def real_rescale(x, s):
+    import tsdate.variational as V
+    try:
+        return float(V._rescale(np.array(x, dtype=float), float(s))), True
+    except AssertionError:
+        return None, False
+
+
+def real_rootward0(cav, lik):
+    from tsdate import approx
+    logl, p = approx.rootward_projection(0.0, np.array(cav, dtype=float), np.array(lik, dtype=float))
+    return np.array(p), bool(np.isnan(logl))
+
+
+# ----------------------------------------------------------------------------- star inputs (C20)
+
+def star_forest_ts(rng, n=None, parents=None, trees=None, L=1000.0, total_muts=None, skew=None):
+    """Star-like tree sequence: in every tree each sample hangs directly under one of a few non-sample parents
+    (every parent present in a tree has >= 2 children there; parents are roots).  Mutations sit above samples.
+    Returns (ts, info)."""
+    import tskit
+    n = int(rng.integers(2, 9)) if n is None else n
+    parents = int(rng.integers(1, max(2, n // 2 + 1))) if parents is None else parents
+    trees = int(rng.choice([1, 1, 2, 3, 5])) if trees is None else trees
+    t = tskit.TableCollection(sequence_length=L)
+    for _ in range(n):
+        t.nodes.add_row(flags=tskit.NODE_IS_SAMPLE, time=0)
+    pid = [t.nodes.add_row(flags=0, time=1.0 + k) for k in range(parents)]
+    breaks = sorted(set([0.0, L] + [float(np.floor(x)) for x in rng.uniform(1, L - 1, size=trees - 1)]))
+    assign = []
+    for a, b in zip(breaks[:-1], breaks[1:]):
+        while True:
+            lab = rng.integers(0, parents, size=n)
+            cnt = np.bincount(lab, minlength=parents)
+            if np.all((cnt == 0) | (cnt >= 2)):
+                break
+        assign.append(lab)
+        for c in range(n):
+            t.edges.add_row(a, b, pid[lab[c]], c)
+    t.sort()
+    t.edges.squash()
+    t.sort()
+    total = int(rng.choice([0, 3, 10, 30, 100, 400])) if total_muts is None else total_muts
+    skew = float(rng.choice([0.0, 1.0, 3.0])) if skew is None else skew
+    w = rng.random(n) ** (1 + skew)            # skewed shares per sample
+    w = w / w.sum()
+    counts = rng.multinomial(total, w) if total else np.zeros(n, dtype=int)
+    # sites must have distinct sorted positions: draw all positions first
+    pos = np.sort(rng.uniform(0, L, size=int(counts.sum())))
+    pos = np.unique(pos)
+    owners = np.repeat(np.arange(n), counts)[: pos.size]
+    rng.shuffle(owners)
+    for x, c in zip(pos, owners):
+        s = t.sites.add_row(float(x), "A")
+        t.mutations.add_row(s, int(c), "T", time=tskit.UNKNOWN_TIME)
+    t.sort()
+    t.build_index()
+    t.compute_mutation_parents()
+    ts = t.tree_sequence()
+    return ts, dict(n=n, parents=parents, trees=ts.num_trees, muts=ts.num_mutations, edges=ts.num_edges)
+
+
+def star_expected(ts, mutation_rate):
+    """Closed form, computed from the tables alone: per non-sample node (sum of mutations on its child edges,
+    mutation_rate * total span of its child edges)."""
+    y = np.zeros(ts.num_nodes)
+    span = np.zeros(ts.num_nodes)
+    for e in ts.edges():
+        span[e.parent] += e.right - e.left
+    pos = ts.sites_position[ts.mutations_site]
+    for m, x in zip(ts.mutations_node, pos):
+        tree = ts.at(x)
+        y[tree.parent(m)] += 1
+    return y, mutation_rate * span
+
+
+def is_star_static(st):
+    fx = st["fixed"]
+    return bool(st["bj"].size == 0 and np.all(fx[st["ec"]]) and not np.any(fx[st["ep"]])
+                and np.all(st["lower"][st["ec"]] == 0) and np.all(st["elik"][:, 0] >= 0) and np.all(st["elik"][:, 1] > 0))
